@@ -12,18 +12,24 @@ Definition warm_tk (t : tk) (r : Z) : tk :=
   {| start := step2time t r; stop := stop t; dt := dt t; ref := ref t; rev := rev t |}.
 (** the set-up of the restarted run: same files, same table, same constants, clock from the restart time *)
 Definition warm_setup (s : setup) (r : Z) : setup :=
-  {| s_tk := warm_tk (s_tk s) r; s_files := s_files s; s_tab := s_tab s; s_period := s_period s;
+  {| s_tk := warm_tk (s_tk s) r; s_files := s_files s; s_tab := s_tab s; s_cont := s_cont s; s_period := s_period s;
      s_dtdx := s_dtdx s; s_lo := s_lo s; s_hi := s_hi s; s_life := s_life s; s_cfac := s_cfac s |}.
 
 (** the releaser of a warm start *)
 Definition mw_rows (s : setup) (n : Z) : list row :=
-  match rel_init (s_tk s) None true (s_tab s) with
+  match rel_init (s_tk s) (s_cont s) true (s_tab s) with
   | RelOk _ groups steps =>
       match run_upto groups steps (S (Z.to_nat n)) with
       | Some (_, outs) => last outs []
       | None => []
       end
   | RelExit => []
+  end.
+(** what the warm releaser must append at step n (C04, warm start): discrete / continuous release *)
+Definition spw_rows (s : setup) (n : Z) : list row :=
+  match s_cont s with
+  | None => released_at_warm (s_tk s) (s_tab s) n
+  | Some f => cont_released_at (s_tk s) f true (s_tab s) n
   end.
 Definition mw_release (s : setup) (n : Z) : list (Z * pv) := map row_part (mw_rows s n).
 
